@@ -44,7 +44,7 @@ FLOORS = {
     "quick": {"counts": {"g1_lines_checked": 60000, "hook_invocations_checked": 100000,
                          "extrusion_amounts_checked": 50000, "rapids_checked": 700,
                          "absolute_extrusion_moves": 15000, "relative_extrusion_moves": 15000,
-                         "hooks_added_inside_context": 100, "hooks_removed_inside_context": 30,
+                         "hooks_added_inside_context": 100, "hooks_removed_inside_context": 20,
                          "mid_history_hook_checks": 2000}, "keys": 20},
     "thorough": {"counts": {"g1_lines_checked": 2500000}, "keys": 20},
 }
@@ -268,7 +268,7 @@ def run_case(ctx, col, case):
             with g.move_hook(extra):
                 # registrations made while a temporary hook is active are permanent ones: they must
                 # survive the end of the context (and removals must not be undone by it)
-                what = rng.choice(["none", "none", "add", "remove", "nested"])
+                what = rng.choice(["none", "add", "add", "remove", "remove", "nested"])
                 if what == "add" and len(perms) < 3:
                     p = Probe(f"perm{len(perms) + len(retired)}", mutate=False)
                     g.add_hook(p)
